@@ -606,36 +606,54 @@ func (pr *ProtoArray) OnPrune(ctx context.Context, anchorRoot Root, anchorSlot S
 	if !ok {
 		return HeadUnknownErr
 	}
-	// Remove the `self.indices` and `self.blockSlots` key/values for all the to-be-deleted nodes.
-	j := 0
-	var pruned []prunedNode
+	// Collect the to-be-deleted nodes: everything in the array before the anchor.
+	pruned := make([]prunedNode, 0, anchorIndex-pr.indexOffset)
 	for i := pr.indexOffset; i < anchorIndex; i++ {
-		node := &pr.nodes[j]
-		if pr.sink != nil {
-			canonical := node.BestDescendant == headIndex
-			pruned = append(pruned, prunedNode{canonical, node})
-		}
+		node := &pr.nodes[i-pr.indexOffset]
+		pruned = append(pruned, prunedNode{node.BestDescendant == headIndex, node})
 	}
-	// Send pruned nodes to the node sink (empty if no sink). Continue until it fails.
+	// Send pruned nodes to the node sink (if there is one). Continue until it fails.
 	// Only prune what we successfully sent to the sink.
-	prunedUpTo := 0
-	for _, p := range pruned {
-		if err = pr.sink.OnPrunedNode(ctx, p.node.Ref, p.canonical); err != nil {
-			break
+	prunedUpTo := len(pruned)
+	if pr.sink != nil {
+		prunedUpTo = 0
+		for _, p := range pruned {
+			if err = pr.sink.OnPrunedNode(ctx, p.node.Ref, p.canonical); err != nil {
+				break
+			}
+			prunedUpTo++
 		}
-		prunedUpTo++
 	}
-	// adjust the slot we know for the anchor root, everything before it was pruned.
-	pr.blockSlots[anchorRoot] = anchorSlot
 	for _, p := range pruned[:prunedUpTo] {
 		delete(pr.indices, p.node.Ref)
-		// Remove the block-slots ref
-		delete(pr.blockSlots, p.node.Ref.Root)
-		// TODO: is this slicing bad for GC?
-		pr.nodes = pr.nodes[1:]
-		// update offset
-		pr.indexOffset++
+		// Adjust the first slot we know for the root: the next slot of the same root if that is retained,
+		// otherwise the root is gone entirely.
+		if _, ok := pr.indices[NodeRef{Root: p.node.Ref.Root, Slot: p.node.Ref.Slot + 1}]; ok {
+			pr.blockSlots[p.node.Ref.Root] = p.node.Ref.Slot + 1
+		} else {
+			delete(pr.blockSlots, p.node.Ref.Root)
+		}
 	}
+	// TODO: is this slicing bad for GC?
+	pr.nodes = pr.nodes[prunedUpTo:]
+	pr.indexOffset += NodeIndex(prunedUpTo)
+	// Retained nodes must not keep links to removed nodes.
+	for i := range pr.nodes {
+		node := &pr.nodes[i]
+		if node.TransitionParent != NONE && node.TransitionParent < pr.indexOffset {
+			node.TransitionParent = NONE
+		}
+		if node.ForkchoiceParent != NONE && node.ForkchoiceParent < pr.indexOffset {
+			node.ForkchoiceParent = NONE
+			// A block stays attached to the first retained node of its parent root (e.g. a gap-slot anchor).
+			if parentSlot, ok := pr.blockSlots[node.ParentRoot]; ok && node.ParentRoot != node.Ref.Root {
+				if parentIndex, ok := pr.indices[NodeRef{Root: node.ParentRoot, Slot: parentSlot}]; ok {
+					node.ForkchoiceParent = parentIndex
+				}
+			}
+		}
+	}
+	pr.updatedConnections = false
 	return err
 }
 
